@@ -18,6 +18,10 @@ BAD = [
     ("non-primitive-enum", {"enum": [[1, 2], "b"]}),
     ("non-primitive-enum-object", {"enum": [{"a": 1}]}),
     ("integer-enum-non-number", {"type": "integer", "enum": ["x"]}),
+    # the ungeneratable member after a null / after members of one type (once two members differ in type the generator stops looking and emits the
+    # list as it is - such a list IS generated, correctly, and is not an ungeneratable element)
+    ("non-primitive-enum-after-null", {"enum": [None, {"level": 1}]}),
+    ("non-primitive-enum-last-of-many", {"enum": [1, 2, 3, 4, 5, 6, 7, [8]]}),
     # faults the schema decoder itself must report (wrong JSON type for a keyword)
     ("decode-minLength-string", {"type": "string", "minLength": "3"}),
     ("decode-type-number", {"type": 5}),
